@@ -155,6 +155,7 @@ func parseStrace(path string) (calls []rawCall, seq []string, inflight []string,
 	sc.Buffer(make([]byte, 1<<20), 1<<26)
 	pending := map[string]string{}
 	perPid := map[string][]string{}
+	var dead []string
 	defer func() {
 		// strace keeps injection counters per thread and per system call:
 		// report the inject-set calls entered by the busiest thread, in order
@@ -169,6 +170,7 @@ func parseStrace(path string) (calls []rawCall, seq []string, inflight []string,
 		for _, body := range pending {
 			inflight = append(inflight, body)
 		}
+		inflight = append(inflight, dead...)
 	}()
 	ln := 0
 	for sc.Scan() {
@@ -207,6 +209,11 @@ func parseStrace(path string) (calls []rawCall, seq []string, inflight []string,
 			continue
 		}
 		rc := rawCall{line: ln, name: rest[:p], args: splitArgs(m[1]), ret: strings.TrimSpace(m[2]), text: strings.Join(strings.Fields(rest), " ")}
+		if strings.HasPrefix(rc.ret, "?") {
+			// the thread died inside (or on entry to) this call: strace cannot tell whether
+			// its effect was applied
+			dead = append(dead, rest)
+		}
 		calls = append(calls, rc)
 	}
 	return calls, seq, inflight, killed, sc.Err()
